@@ -291,7 +291,10 @@ theorem drainInputs_active (s s1 : ChV2) (dq dq1 : List Queued) (layer : Nat) (h
   split at h
   · rename_i hti
     cases h
-    exact Or.inr ⟨Or.inl hti, s.queue, hmemrel s.queue, Or.inl rfl⟩
+    refine Or.inr ⟨Or.inl hti, realInputs s.queue, ?_, Or.inl rfl⟩
+    intro k ⟨qd, hq, he⟩
+    apply hmemrel
+    exact ⟨qd, List.mem_filter.mpr ⟨hq, by simp [he, Ev.coord]⟩, he⟩
   · rename_i hti
     split at h
     · rename_i hskip
